@@ -87,6 +87,16 @@ Proof.
   destruct chk; cbn; rewrite H3; [rewrite H4|]; reflexivity.
 Qed.
 
+Lemma Step_one_gen chk root s s' a :
+  serr s' = serr s -> out s' = out s ++ [a] ->
+  spec_apply root (W s) a = Some (W s') ->
+  (chk = true -> is_ns_action a || negb (same_doc root (W s) (W s')) = true) ->
+  Step chk root s s'.
+Proof.
+  intros H1 H2 H3 H4. split; [exact H1|]. exists [a]. split; [exact H2|].
+  destruct chk; cbn; rewrite H3; [rewrite H4|]; reflexivity.
+Qed.
+
 (* ------------------------------------------------------------------ *)
 (** * Effectiveness criteria                                            *)
 (* ------------------------------------------------------------------ *)
